@@ -3,3 +3,27 @@
 Each takes (scenario, violation_record) and must hold only for the specific
 input / call site / history the finding describes.
 """
+
+
+def _steps(sc):
+    out = []
+
+    def walk(steps):
+        for sp in steps or []:
+            out.append(sp.get('step'))
+            if sp.get('step') == 'nest':
+                walk(sp.get('steps'))
+    walk((sc or {}).get('steps'))
+    return out
+
+
+def c01_dump_counters(sc, rec):
+    """Descriptors of the lazy and the step-by-step evaluation differ *only* in the counters (bytes / hash /
+    count_of_rows) a file dumper writes into its descriptor after its rows have passed (the check assigns the key
+    'dump-counters' only when the descriptors are equal once exactly those keys are removed), and the pipeline
+    has a file dumper followed by at least one more step."""
+    if rec.get('clause') != 'schedule-equivalence:descriptor' or rec.get('key') != 'dump-counters':
+        return False
+    st = _steps(sc)
+    idx = [i for i, s in enumerate(st) if s in ('dump_to_path', 'dump_to_zip')]
+    return bool(idx) and idx[0] < len(st) - 1
